@@ -77,6 +77,13 @@ def run(ctx):
                         "helper processes do not die by themselves (the property does not say what happens then)"]
     ctx.model_check("MC_Ports")
     ctx.model_check("MC_Ports", "MC_Ports_midicat.cfg")
+    # the concurrent in port on the model: every interleaving of client / reader / control goroutines / helper
+    ctx.model_check("MC_MidicatIn", "MC_MidicatIn.cfg" if q else "MC_MidicatIn_thorough.cfg", timeout=3000)
+    # non-vacuity: the start-failure path as it was before its fix must deadlock in the model
+    r = ctx.tlc("MC_MidicatIn", "MC_MidicatIn_asis.cfg", must_pass=False, record=False, workers=4)
+    if r.violated != "NoDeadlockWhileCalling":
+        raise Machinery("regression config MC_MidicatIn_asis no longer deadlocks: the deadlock check is vacuous\n" + r.out[-2000:])
+    ctx.cov["model_runs"].append({"module": "MC_MidicatIn", "cfg": "MC_MidicatIn_asis.cfg", "expected_violation": "NoDeadlockWhileCalling", "seen": True})
     res = walk_testdrv(ctx, 7 if q else 9)
     hists = res["bad"]
     for h in hists:
